@@ -300,6 +300,8 @@ def tlc_runs(tier, rnd):
             'MC_Rounding', 'Rounding_mc.cfg', workers=4, coverage=True, timeout=600)
         yield 'Rounding_dec', lambda: tlc.run(
             'MC_Rounding', 'Rounding_dec.cfg', workers=4, coverage=True, timeout=600)
+        yield 'Rounding_mil', lambda: tlc.run(
+            'MC_Rounding', 'Rounding_mil.cfg', workers=4, coverage=True, timeout=600)
         return
     d = tlc.new_scratch('rounding')
     offs = sorted({0, 1237, rnd.randrange(1, 9973), rnd.randrange(1, 9973)})
@@ -333,6 +335,9 @@ def tlc_runs(tier, rnd):
                         spec_dir=d, workers=3, coverage=True, timeout=1500,
                         library=tlc.SPEC, heap='3g'): label
             for label, name in jobs}
+    # significances in thousandths (0.07, 0.57, 8.3 ...): the committed configuration
+    futs[pool.submit(tlc.run, 'MC_Rounding', 'Rounding_mil.cfg', workers=3, coverage=True,
+                     timeout=1500)] = 'Rounding_mil'
     for fut in as_completed(futs):
         yield futs[fut], fut.result
     pool.shutdown()
